@@ -132,13 +132,14 @@ Definition smonitor_trace (sp : spec) (pull : bool) (nsk : nat) (tr : list event
 Definition run_pipe_spec := run_pipe.
 
 (** ** Thread experiments (C18, C19) *)
-From CB Require Export ThreadSpec.
+From CB Require Export ThreadSpec ThreadsFine ThreadsTakeMerge.
 
 Inductive tsys : Type :=
 | TsTake (fixed : bool) (max : nat)
 | TsMerge (n : nat)
 | TsCombine (fixed : bool) (n : nat)
-| TsTakeMerge (max : nat).     (* real crate only: no model *)
+| TsTakeMerge (fixed : bool) (max : nat) (n : nat)   (* take(max) behind merge of n members *)
+| TsMergeFine (fixed : bool) (n : nat).   (* merge with the talkback cells as scheduling points (free=1) *)
 
 Definition trun (sys : tsys) (nth : nat) (qs : nat -> list val) (fins : nat -> final)
   (sch : list nat) (fuel : nat) : list tevent * list tviol :=
@@ -152,7 +153,12 @@ Definition trun (sys : tsys) (nth : nat) (qs : nat -> list val) (fins : nat -> f
   | TsCombine fixed n =>
       let s := run_full (cb_step fixed n) cb_finished nth sch fuel (cb_init n qs fins) in
       let tr := rev (cbs_tr s) in (tr, combine_check n qs fins tr)
-  | TsTakeMerge _ => ([], [])
+  | TsTakeMerge fixed max n =>
+      let s := run_full (xm_step fixed max n) xm_finished nth sch fuel (xm_init n qs fins) in
+      let tr := rev (xms_tr s) in (tr, takemerge_check max tr)
+  | TsMergeFine fixed n =>
+      let s := run_full (mf_step fixed n) mf_finished nth sch fuel (mf_init fixed n qs fins) in
+      let tr := rev (mfs_tr s) in (tr, merge_check_fine n qs fins tr)
   end.
 
 (** the checks alone, for traces recorded from the real crate *)
@@ -162,19 +168,22 @@ Definition tcheck (sys : tsys) (qs : nat -> list val) (fins : nat -> final) (tr 
   | TsTake _ max => take_check max tr
   | TsMerge n => merge_check n qs fins tr
   | TsCombine _ n => combine_check n qs fins tr
-  | TsTakeMerge max => takemerge_check max tr
+  | TsTakeMerge _ max _ => takemerge_check max tr
+  | TsMergeFine _ n => merge_check_fine n qs fins tr
   end.
 
 (** for exhaustive exploration by the driver: one step, which threads can move *)
 Inductive tstate : Type :=
-| TSt_take (s : tk_state) | TSt_merge (s : mg_state) | TSt_combine (s : cb_state).
+| TSt_take (s : tk_state) | TSt_merge (s : mg_state) | TSt_combine (s : cb_state)
+| TSt_mfine (s : mf_state) | TSt_xm (s : xm_state).
 
 Definition tinit (sys : tsys) (qs : nat -> list val) (fins : nat -> final) : tstate :=
   match sys with
   | TsTake _ _ => TSt_take (tk_init qs)
   | TsMerge n => TSt_merge (mg_init n qs fins)
   | TsCombine _ n => TSt_combine (cb_init n qs fins)
-  | TsTakeMerge _ => TSt_take (tk_init qs)
+  | TsTakeMerge _ _ n => TSt_xm (xm_init n qs fins)
+  | TsMergeFine fixed n => TSt_mfine (mf_init fixed n qs fins)
   end.
 
 Definition tstep1 (sys : tsys) (st : tstate) (t : nat) : tstate :=
@@ -182,6 +191,8 @@ Definition tstep1 (sys : tsys) (st : tstate) (t : nat) : tstate :=
   | TsTake fixed max, TSt_take s => TSt_take (tk_step fixed max s t)
   | TsMerge n, TSt_merge s => TSt_merge (mg_step n s t)
   | TsCombine fixed n, TSt_combine s => TSt_combine (cb_step fixed n s t)
+  | TsMergeFine fixed n, TSt_mfine s => TSt_mfine (mf_step fixed n s t)
+  | TsTakeMerge fixed max n, TSt_xm s => TSt_xm (xm_step fixed max n s t)
   | _, _ => st
   end.
 
@@ -190,6 +201,8 @@ Definition tfinished (st : tstate) (t : nat) : bool :=
   | TSt_take s => tk_finished s t
   | TSt_merge s => mg_finished s t
   | TSt_combine s => cb_finished s t
+  | TSt_mfine s => mf_finished s t
+  | TSt_xm s => xm_finished s t
   end.
 
 Definition ttrace (st : tstate) : list tevent :=
@@ -197,4 +210,6 @@ Definition ttrace (st : tstate) : list tevent :=
   | TSt_take s => rev (tks_tr s)
   | TSt_merge s => rev (mgs_tr s)
   | TSt_combine s => rev (cbs_tr s)
+  | TSt_mfine s => rev (mfs_tr s)
+  | TSt_xm s => rev (xms_tr s)
   end.
